@@ -177,6 +177,28 @@ func main() {
 					case *ast.CommClause:
 						processList(x.Body)
 					case *ast.CallExpr:
+						// sync.Map seam: m.Range(f) -> verifvrt.SyncRange(&m, "site", f)
+						if sel, ok := x.Fun.(*ast.SelectorExpr); ok && sel.Sel.Name == "Range" && len(x.Args) == 1 {
+							if tv, ok := pkg.TypesInfo.Types[sel.X]; ok {
+								t := tv.Type
+								isPtr := false
+								if pt, ok := t.(*types.Pointer); ok {
+									t, isPtr = pt.Elem(), true
+								}
+								if nt, ok := t.(*types.Named); ok && nt.Obj().Pkg() != nil && nt.Obj().Pkg().Path() == "sync" && nt.Obj().Name() == "Map" {
+									id := siteOf(x.Pos())
+									recv := sel.X
+									if !isPtr {
+										recv = &ast.UnaryExpr{Op: token.AND, X: sel.X}
+									}
+									x.Fun = &ast.SelectorExpr{X: ast.NewIdent("verifvrt"), Sel: ast.NewIdent("SyncRange")}
+									x.Args = []ast.Expr{recv, &ast.BasicLit{Kind: token.STRING, Value: fmt.Sprintf("%q", id)}, x.Args[0]}
+									n++
+									sites = append(sites, site{ID: id, File: fname, Line: pkg.Fset.Position(x.Pos()).Line, Key: "sync.Map"})
+									return true
+								}
+							}
+						}
 						// clock seam: time.Now() -> verifvrt.Now()
 						if sel, ok := x.Fun.(*ast.SelectorExpr); ok && sel.Sel.Name == "Now" && len(x.Args) == 0 {
 							if id, ok := sel.X.(*ast.Ident); ok {
